@@ -11,6 +11,7 @@
 -/
 import MitmVerif.Lemmas.C28
 import MitmVerif.Lemmas.C28_Wire
+
 namespace MitmVerif.Props.C28
 open MitmVerif MitmVerif.C28
 
@@ -1054,6 +1055,312 @@ theorem text_message_wire_roundtrip_any_cuts (client : Bool) (keys : Nat → Opt
     simp only [Wire.flagged_map_fst]
     rw [(text_frames_cut_anywhere cs outs p' hne hdec).1]
 
+/-! ### round 6 (owner fixes after the cross-audit): the wire theorems over the decoder the driver runs -/
+
+/-- the receive path the driver executes (`fev` = `streamEventsU`, with the incremental UTF-8 decoder) yields a close
+    event only as the last event of a batch — for every input, also malformed ones -/
+theorem stream_eventsU_close_last (client : Bool) (rsvOk : Nat → Nat → Bool) :
+    ∀ (fuel : Nat) (ms : Wire.MState) (pend bs : Bytes) (evs : List WsEv),
+    Wire.streamEventsU client rsvOk fuel ms pend bs = some evs → closeLast evs = true := by
+  intro fuel
+  induction fuel with
+  | zero => intro ms pend bs evs h; simp [Wire.streamEventsU] at h; subst h; rfl
+  | succ n ih =>
+    intro ms pend bs evs h
+    simp only [Wire.streamEventsU] at h
+    split at h
+    · simp at h; subst h; rfl
+    · simp at h
+    · rename_i f rest _
+      split at h
+      · simp at h
+      · rename_i ms1 p1 e hfe
+        split at h
+        · simp at h; subst h; rfl
+        · rename_i h8
+          cases hr : Wire.streamEventsU client rsvOk n ms1 p1 rest with
+          | none => rw [hr] at h; simp at h
+          | some r =>
+            rw [hr] at h; simp at h; subst h
+            have hcl := ih ms1 p1 rest r hr
+            have he : e.isClose = false := by
+              unfold Wire.frameEventU at hfe
+              cases hfe0 : Wire.frameEvent ms f with
+              | none => rw [hfe0] at hfe; simp at hfe
+              | some r0 =>
+                obtain ⟨ms0, e0⟩ := r0
+                have h0 := frameEvent_close ms f ms0 e0 hfe0 h8
+                rw [hfe0] at hfe
+                cases e0 with
+                | msg t d ff mf =>
+                  cases t with
+                  | false => simp at hfe; obtain ⟨_, _, rfl⟩ := hfe; rfl
+                  | true =>
+                    simp only at hfe
+                    split at hfe
+                    · simp at hfe
+                    · simp at hfe; obtain ⟨_, _, rfl⟩ := hfe; rfl
+                | ping p => simp at hfe; obtain ⟨_, _, rfl⟩ := hfe; rfl
+                | pong p => simp at hfe; obtain ⟨_, _, rfl⟩ := hfe; rfl
+                | close k c r => simp [WsEv.isClose] at h0
+            cases r with
+            | nil => rfl
+            | cons a l => simp [closeLast, he, hcl]
+
+/-- **C28 (wire, message — tied decoder).** `message_wire_roundtrip` for `streamEventsU`, the function the driver runs:
+    binary messages in any fragmentation, text messages whose fragments are each complete UTF-8 (`StrictOk`; text cut
+    inside characters is `text_message_wire_roundtrip_any_cuts`). -/
+theorem message_wire_roundtripU (client : Bool) (t : Bool) (keys : Nat → Option Bytes) (fr : List (Bytes × Bool))
+    (hwf : wellFramed fr = true) (hk : Wire.KeysOk client keys)
+    (hsz : ∀ pf ∈ fr, pf.1.length < 9223372036854775808)
+    (hv : t = true → ∀ pf ∈ fr, StrictOk pf.1) (fuel : Nat) (hfuel : fr.length < fuel) :
+    Wire.streamEventsU client Wire.noExt fuel none [] ((Wire.dataFrames t keys 0 true fr).flatMap Wire.encodeFrame)
+      = some (fr.map (fun pf => WsEv.msg t pf.1 true pf.2)) ∧
+    Wire.reassemble none (fr.map (fun pf => WsEv.msg t pf.1 true pf.2)) = [(t, (fr.map (·.1)).flatten)] :=
+  Wire.message_wire_roundtripU client t keys fr hwf hk hsz hv fuel hfuel
+
+/-- what the relay puts on the wire as text is always accepted, completely and unchanged, by a strict UTF-8 decoder -/
+theorem sent_text_is_strictly_utf8 (fs : Nat) (lens : List Nat) (c : Bytes) :
+    ∀ pf ∈ fragmentize fs lens true c, StrictOk pf.1 := Wire.fragmentize_strictOk fs lens c
+
+/-- **C28 (end to end over the wire — tied decoder).** `wire_message_end_to_end` with both hops decoded by
+    `streamEventsU` (the function the driver runs against wsproto): any fragmentation, any keys / length forms, any addon
+    edit; for text the sender's fragments are each complete UTF-8 here (cut inside characters:
+    `wire_text_message_end_to_end_any_cuts`); that the PROXY's outgoing text fragments pass the peer's strict decoder is
+    proved (`sent_text_is_strictly_utf8`), not assumed. -/
+theorem wire_message_end_to_endU (fs : Nat) (pol : Policy) (s : St) (fc t : Bool)
+    (fr : List (Bytes × Bool)) (keys keys' : Nat → Option Bytes) (fuel fuel' : Nat)
+    (hwf : wellFramed fr = true) (hk : Wire.KeysOk (!fc) keys)
+    (hsz : ∀ pf ∈ fr, pf.1.length < 9223372036854775808) (hfuel : fr.length < fuel)
+    (hv : t = true → ∀ pf ∈ fr, StrictOk pf.1)
+    (hnd : s.done = false) (hc : s.crashed = false) (hop : s.ws (!fc) = .wopen) (hb : s.buf fc = [[]])
+    (m : Msg)
+    (hm : m = applyAction (Msg.mk t fc (fr.map (·.1)).flatten false false)
+                (pol s.msgs.length (Msg.mk t fc (fr.map (·.1)).flatten false false)))
+    (hkeep : m.dropped = false)
+    (hk' : Wire.KeysOk (!fc) keys')
+    (hsz' : ∀ pf ∈ fragmentize fs (fr.map (·.1.length)) t m.content, pf.1.length < 9223372036854775808)
+    (hfuel' : (fragmentize fs (fr.map (·.1.length)) t m.content).length < fuel') :
+    let evs := fr.map (fun pf => WsEv.msg t pf.1 true pf.2)
+    let burst := fragmentize fs (fr.map (·.1.length)) t m.content
+    Wire.streamEventsU (!fc) Wire.noExt fuel none [] ((Wire.dataFrames t keys 0 true fr).flatMap Wire.encodeFrame) = some evs ∧
+    (step fs pol s (.data fc evs)).1.msgs = s.msgs ++ [m] ∧
+    (step fs pol s (.data fc evs)).2 = [.hookMsg s.msgs.length, .sendMsg (!fc) t burst] ∧
+    (Wire.streamEventsU (!fc) Wire.noExt fuel' none [] ((Wire.dataFrames t keys' 0 true burst).flatMap Wire.encodeFrame)).map
+        (Wire.reassemble none) = some [(t, wire m)] := by
+  intro evs burst
+  have hin := Wire.message_wire_roundtripU (!fc) t keys fr hwf hk hsz hv fuel hfuel
+  obtain ⟨_, h2, h3, _⟩ := wire_message_end_to_end fs pol s fc t fr keys keys' fuel fuel' hwf hk hsz hfuel hnd hc hop hb m hm hkeep
+    hk' hsz' hfuel'
+  have hmt : m.text = t := by rw [hm, applyAction_text]
+  have hbw := fragmentize_wellFramed fs (fr.map (·.1.length)) t m.content
+  have hv' : t = true → ∀ pf ∈ burst, StrictOk pf.1 := by
+    intro ht; subst ht; exact Wire.fragmentize_strictOk fs _ m.content
+  have hout := Wire.message_wire_roundtripU (!fc) t keys' burst hbw hk' hsz' hv' fuel' hfuel'
+  refine ⟨hin.1, h2, h3, ?_⟩
+  rw [hout.1]
+  simp only [Option.map_some]
+  rw [hout.2]
+  have := fragmentize_wire fs (fr.map (·.1.length)) t m.content
+  simp only [burst, this, wire, hmt]
+
+/-- **C28 (end to end, text cut anywhere — tied decoder).** A peer sends a text message whose frame payloads `cs` are cut
+    at arbitrary byte positions; wsproto's decoder (accepting it) hands the relay the pieces `outs`.  Then the proxy's
+    events are these pieces, the relay records exactly one message with content `cs.flatten` (as edited by the addons) and
+    sends one burst, and the receiving peer — again through its strict incremental decoder — reassembles exactly one text
+    message with the recorded content. -/
+theorem wire_text_message_end_to_end_any_cuts (fs : Nat) (pol : Policy) (s : St) (fc : Bool)
+    (cs outs : List Bytes) (p' : Bytes) (keys keys' : Nat → Option Bytes) (fuel fuel' : Nat)
+    (hne : cs ≠ []) (hk : Wire.KeysOk (!fc) keys) (hsz : ∀ c ∈ cs, c.length < 9223372036854775808)
+    (hfuel : cs.length < fuel) (hdec : decodeChunks [] cs = some (outs, p'))
+    (hnd : s.done = false) (hc : s.crashed = false) (hop : s.ws (!fc) = .wopen) (hb : s.buf fc = [[]])
+    (m : Msg)
+    (hm : m = applyAction (Msg.mk true fc cs.flatten false false)
+                (pol s.msgs.length (Msg.mk true fc cs.flatten false false)))
+    (hkeep : m.dropped = false)
+    (hk' : Wire.KeysOk (!fc) keys')
+    (hsz' : ∀ pf ∈ fragmentize fs (outs.map List.length) true m.content, pf.1.length < 9223372036854775808)
+    (hfuel' : (fragmentize fs (outs.map List.length) true m.content).length < fuel') :
+    let evs := (flagged outs).map (fun pf => WsEv.msg true pf.1 true pf.2)
+    let burst := fragmentize fs (outs.map List.length) true m.content
+    Wire.streamEventsU (!fc) Wire.noExt fuel none []
+        ((Wire.dataFrames true keys 0 true (flagged cs)).flatMap Wire.encodeFrame) = some evs ∧
+    (step fs pol s (.data fc evs)).1.msgs = s.msgs ++ [m] ∧
+    (step fs pol s (.data fc evs)).2 = [.hookMsg s.msgs.length, .sendMsg (!fc) true burst] ∧
+    (Wire.streamEventsU (!fc) Wire.noExt fuel' none [] ((Wire.dataFrames true keys' 0 true burst).flatMap Wire.encodeFrame)).map
+        (Wire.reassemble none) = some [(true, wire m)] := by
+  intro evs burst
+  have hin := text_message_wire_roundtrip_any_cuts (!fc) keys cs outs p' fuel hne hk hsz hfuel hdec
+  have hflat := (text_frames_cut_anywhere cs outs p' hne hdec).1
+  have houts : outs ≠ [] := by
+    have := Wire.decodeChunks_length cs [] (outs, p') hdec
+    intro h; subst h; simp at this; exact hne (List.length_eq_zero_iff.mp this.symm)
+  have hwf := Wire.flagged_wellFramed outs houts
+  have hrun := chunks_run fs pol fc false true (flagged outs) hwf s [] hc (by simpa using hb)
+  rw [Wire.flagged_map_fst] at hrun
+  have hmt : m.text = true := by rw [hm, applyAction_text]
+  have hstep : step fs pol s (.data fc evs) = finishMsg fs pol fc false s true outs := by
+    simp only [step, hnd, hc, Bool.or_self, Bool.false_eq_true, if_false]
+    simpa using hrun
+  have hbw := fragmentize_wellFramed fs (outs.map List.length) true m.content
+  have hout := Wire.message_wire_roundtripU (!fc) true keys' burst hbw hk' hsz'
+    (fun _ => Wire.fragmentize_strictOk fs _ m.content) fuel' hfuel'
+  refine ⟨hin.1, ?_, ?_, ?_⟩
+  · rw [hstep]; unfold finishMsg
+    simp only [hflat, ← hm, hkeep, Bool.false_eq_true, if_false, hop, if_true]
+  · rw [hstep]; unfold finishMsg
+    simp only [hflat, ← hm, hkeep, Bool.false_eq_true, if_false, hop, if_true]
+    rfl
+  · rw [hout.1]
+    simp only [Option.map_some]
+    rw [hout.2]
+    have := fragmentize_wire fs (outs.map List.length) true m.content
+    simp only [burst, this, wire, hmt]
+
+/-! ### round 6: recorded = what the peers sent, over whole interleaved histories -/
+
+private def Rel (s : St) (a : Sent) : Prop :=
+  Live s ∧ s.bufC.flatten = a.c ∧ s.bufS.flatten = a.s ∧ s.msgs = a.msgs
+
+private theorem rel_buf (s : St) (a : Sent) (h : Rel s a) (fc : Bool) : (s.buf fc).flatten = a.acc fc := by
+  cases fc <;> simp [St.buf, Sent.acc, h.2.1, h.2.2.1]
+
+private theorem procEv_rel (fs : Nat) (pol : Policy) (fc : Bool) (s : St) (a : Sent) (e : WsEv)
+    (h : Rel s a) (hn : e.isClose = false) : Rel (procEv fs pol fc false s e).1 (sentEv pol fc a e) := by
+  have hl := (procEv_live fs pol fc false s e h.1 hn).1
+  refine ⟨hl, ?_⟩
+  have hb := rel_buf s a h fc
+  obtain ⟨hlive, hc, hs, hm⟩ := h
+  unfold procEv
+  simp only [hlive.2.2.2, Bool.false_eq_true, if_false]
+  cases e with
+  | msg t d ff mf =>
+    simp only [procMsg, sentEv]
+    cases mf
+    · simp only [Bool.false_eq_true, if_false]
+      cases ff <;> cases fc <;>
+        simp_all [St.setBuf, St.buf, Sent.setAcc, Sent.acc, appendLast_flatten]
+    · simp only [if_true, finishMsg, appendLast_flatten, hb, hm, live_ws s hlive]
+      split <;> cases fc <;> simp_all [St.setBuf, Sent.setAcc, Sent.acc]
+  | ping p => simp [procCtl, live_ws s hlive, sentEv, hc, hs, hm]
+  | pong p => simp [procCtl, live_ws s hlive, sentEv, hc, hs, hm]
+  | close k c r => simp [WsEv.isClose] at hn
+
+private theorem procEvs_rel (fs : Nat) (pol : Policy) (fc : Bool) (es : List WsEv) :
+    ∀ (s : St) (a : Sent), Rel s a → (∀ e ∈ es, e.isClose = false) →
+    Rel (procEvs fs pol fc false s es).1 (es.foldl (sentEv pol fc) a) := by
+  induction es with
+  | nil => intro s a h _; exact h
+  | cons e es ih =>
+    intro s a h hn
+    simp only [procEvs, List.foldl_cons]
+    exact ih _ _ (procEv_rel fs pol fc s a e h (hn e (by simp))) (fun x hx => hn x (List.mem_cons_of_mem _ hx))
+
+private theorem procEv_buf_other (fs : Nat) (pol : Policy) (fc inj : Bool) (s : St) (e : WsEv) :
+    (procEv fs pol fc inj s e).1.buf (!fc) = s.buf (!fc) := by
+  unfold procEv
+  split
+  · rfl
+  · cases e with
+    | msg t d ff mf =>
+      simp only [procMsg, finishMsg]
+      repeat' split
+      all_goals (cases fc <;> simp [St.buf, St.setBuf])
+    | ping p => simp only [procCtl]; split <;> cases fc <;> simp [St.buf]
+    | pong p => simp only [procCtl]; split <;> cases fc <;> simp [St.buf]
+    | close k c r =>
+      simp only [procClose, closeSend]
+      repeat' split
+      all_goals (cases fc <;> simp [St.buf, St.setWs])
+
+private theorem procEvs_buf_other (fs : Nat) (pol : Policy) (fc inj : Bool) (es : List WsEv) :
+    ∀ s : St, (procEvs fs pol fc inj s es).1.buf (!fc) = s.buf (!fc) := by
+  induction es with
+  | nil => intro s; rfl
+  | cons e es ih => intro s; simp only [procEvs]; rw [ih, procEv_buf_other]
+
+private theorem step_rel (fs : Nat) (pol : Policy) (s : St) (a : Sent) (e : Ev) (h : Rel s a) (hn : e.noClose = true) :
+    Rel (step fs pol s e).1 (sentOf pol a e) := by
+  cases e with
+  | data fc evs =>
+    have hn' : ∀ e ∈ evs, e.isClose = false := by
+      intro e he; simp only [Ev.noClose, List.all_eq_true] at hn; simpa using hn e he
+    simp only [step, h.1.2.2.1, h.1.2.2.2, Bool.or_self, Bool.false_eq_true, if_false, sentOf]
+    exact procEvs_rel fs pol fc evs s a h hn'
+  | inject fc t c =>
+    have hl := (step_live fs pol s (.inject fc t c) h.1 rfl).1
+    obtain ⟨hm, hbuf⟩ := injected_recorded_once fs pol s fc t c h.1.2.2.1 h.1.2.2.2
+    have hother : (step fs pol s (.inject fc t c)).1.buf (!fc) = s.buf (!fc) := by
+      simp only [step, h.1.2.2.1, h.1.2.2.2, Bool.or_self, Bool.false_eq_true, if_false]
+      have := procEvs_buf_other fs pol fc true (injectEvents fs t c) (s.setBuf fc [[]])
+      cases fc <;> simp_all [St.buf, St.setBuf]
+    refine ⟨hl, ?_, ?_, ?_⟩
+    · cases fc
+      · simpa [St.buf, sentOf, h.2.1] using congrArg List.flatten hother
+      · simpa [St.buf, sentOf, h.2.1] using congrArg List.flatten hbuf
+    · cases fc
+      · simpa [St.buf, sentOf, h.2.2.1] using congrArg List.flatten hbuf
+      · simpa [St.buf, sentOf, h.2.2.1] using congrArg List.flatten hother
+    · rw [hm, h.2.2.2]; rfl
+
+private theorem run_rel (fs : Nat) (pol : Policy) (es : List Ev) :
+    ∀ (s : St) (a : Sent), Rel s a → (∀ e ∈ es, e.noClose = true) →
+    Rel (run fs pol s es).1 (es.foldl (sentOf pol) a) := by
+  induction es with
+  | nil => intro s a h _; exact h
+  | cons e es ih =>
+    intro s a h hn
+    simp only [run, List.foldl_cons]
+    exact ih _ _ (step_rel fs pol s a e h (hn e (by simp))) (fun x hx => hn x (List.mem_cons_of_mem _ hx))
+
+private theorem rel_init : Rel {} {} := ⟨⟨rfl, rfl, rfl, rfl⟩, rfl, rfl, rfl⟩
+
+/-- **C28 (recorded = sent, whole histories).** For every interleaved history of both directions (data events in any
+    fragmentation and segmentation, pings/pongs, injections at any point, any addon policy) in which nobody has closed:
+    `flow.websocket.messages` is exactly `sentMessages pol evs` — one entry per finished message of either peer and per
+    injection, in arrival order, its content the concatenation of the message's fragments (for an injected text message
+    its decode-replace image), with the addons' edit/drop applied.  `sentMessages` is a function of the event history
+    alone (two accumulators, no frame buffers, no connection states).  Together with `each_message_once_in_order` this is
+    "every message the peers sent is delivered exactly once, in order" for whole histories. -/
+theorem recorded_is_what_was_sent (fs : Nat) (pol : Policy) (evs : List Ev) (hn : ∀ e ∈ evs, e.noClose = true) :
+    (run fs pol {} evs).1.msgs = sentMessages pol evs :=
+  (run_rel fs pol evs {} {} rel_init hn).2.2.2
+
+/-- … and up to the first close of a history: what was recorded is what the peers had sent before the close (events
+    of the closing batch in front of the close included); nothing after it is recorded. -/
+theorem recorded_is_what_was_sent_until_close (fs : Nat) (pol : Policy) (before : List Ev) (fc : Bool) (pre : List WsEv)
+    (kind : CloseKind) (code : Nat) (reason : Option Bytes) (rest : List Ev)
+    (h1 : ∀ e ∈ before, e.noClose = true) (h2 : ∀ e ∈ pre, e.isClose = false) :
+    (run fs pol {} (before ++ .data fc (pre ++ [.close kind code reason]) :: rest)).1.msgs
+      = sentMessages pol (before ++ [.data fc pre]) := by
+  rw [run_append]
+  have hr := run_rel fs pol before {} {} rel_init h1
+  have hp := procEvs_rel fs pol fc pre _ _ hr h2
+  obtain ⟨hm, hcr, _, hdone, _⟩ := procClose_inv fc (procEvs fs pol fc false (run fs pol {} before).1 pre).1 kind code reason
+  have hstep : (step fs pol (run fs pol {} before).1 (.data fc (pre ++ [.close kind code reason]))).1
+      = (procClose fc (procEvs fs pol fc false (run fs pol {} before).1 pre).1 kind code reason).1 := by
+    simp [step, hr.1.2.2.1, hr.1.2.2.2, procEvs_append, procEvs, procEv, hp.1.2.2.2]
+  simp only [run]
+  rw [run_done _ _ _ _ (by rw [hstep]; exact hdone)]
+  simp only
+  rw [hstep, hm, hp.2.2.2]
+  simp [sentMessages, List.foldl_append, sentOf]
+
+private theorem run_append_out (fs : Nat) (pol : Policy) (a b : List Ev) :
+    ∀ s : St, (run fs pol s (a ++ b)).2 = (run fs pol s a).2 ++ (run fs pol (run fs pol s a).1 b).2 := by
+  induction a with
+  | nil => intro s; simp [run]
+  | cons e a ih => intro s; simp only [List.cons_append, run, ih, List.append_assoc]
+
+/-- **C28 (ping/pong until a close).** In every history, the pings and pongs a peer sent BEFORE anybody closed are
+    handed to the other peer, in order, whatever happens later (`controls_relayed_in_order` for the close-free prefix
+    of an arbitrary history). -/
+theorem controls_relayed_until_close (fs : Nat) (pol : Policy) (before rest : List Ev) (toClient : Bool)
+    (hn : ∀ e ∈ before, e.noClose = true) :
+    ∃ tail, controlsOut toClient (run fs pol {} (before ++ rest)).2 = controlsIn (!toClient) before ++ tail := by
+  rw [run_append_out, controlsOut_append, controls_relayed_in_order fs pol before toClient hn]
+  exact ⟨_, rfl⟩
+
 /-! ### non-vacuity: concrete runs computed by the kernel -/
 
 -- "a" ++ "é"×3 as text with FRAGMENT_SIZE 4: the cut at byte 4 would split the second "é";
@@ -1211,5 +1518,16 @@ example (client : Bool) (rsvOk : Nat → Nat → Bool) : ∀ (fuel : Nat) (ms : 
             cases r with
             | nil => rfl
             | cons a l => simp [closeLast, he, hcl]
+
+-- recorded = sent on an interleaved history: client message in two events with a server message and an injection in
+-- between, the second message edited, the third dropped
+example : let evs : List Ev := [.data true [.msg true [0x61] true false], .data false [.ping [1], .msg false [7, 8] true true],
+      .inject true true [0x58], .data true [.msg true [0x62] true true]]
+    let pol : Policy := fun i _ => if i = 1 then .edit [0x7A] else if i = 2 then .drop else .keep
+    (∀ e ∈ evs, e.noClose = true) ∧
+    sentMessages pol evs = [⟨false, false, [7, 8], false, false⟩, ⟨true, true, [0x7A], true, false⟩, ⟨true, true, [0x61, 0x62], false, true⟩] ∧
+    (run 4000 pol {} evs).1.msgs = sentMessages pol evs := by decide +kernel
+-- the proxy's own text fragments pass the strict decoder: "a" U+FFFD "b" from invalid input
+example : goS [] (san [0x61, 0xFF, 0x62]) = some ([0x61, 0xEF, 0xBF, 0xBD, 0x62], []) := by decide +kernel
 
 end MitmVerif.Props.C28
